@@ -379,6 +379,21 @@ func c04Gen(g *G) {
 		}
 	}
 	// arbitrary bytes, any length, under any key
+	// a session without a usable auth key (before the key exchange has finished the key is empty; a damaged
+	// session file may hold any number of bytes): a packet that carries that key's id must be refused with an
+	// error like any other — in particular the empty key's id is a constant everybody knows
+	for _, kl := range []int{0, 1, 8, 20, 127, 128, 135} {
+		keyTok := "-"
+		if kl > 0 {
+			keyTok = fmt.Sprintf("x%d:%d", kl, r.U64()>>1)
+		}
+		kid := envSha1(envTok(keyTok))[12:20]
+		for _, blocks := range []int{0, 1, 2, 6} {
+			pkt := append(append(append([]byte{}, kid...), r.Bytes(16)...), r.Bytes(16*blocks)...)
+			c04Emit(g, keyTok, pkt, "refuse", 1, "short-key", fmt.Sprintf("short-key-len=%d", kl))
+		}
+	}
+
 	for i := 0; i < g.N(400, 10000); i++ {
 		c04Emit(g, fmt.Sprintf("x256:%d", r.U64()>>1), r.Bytes(r.Intn(120)), "any", 5, "random-bytes")
 	}
